@@ -62,6 +62,7 @@ PROPS["C18"] = dict(
 
 PROPS["C07"] = dict(
     module="RaptorModel.Props.C07",
+    extra_theorem_modules=["RaptorModel.Props.C07Par"],
     harnesses=["h_c07", "h_c07p"],
     configs=lambda tier, seed: [{"tag": "h_c07-np1", "harness": "h_c07", "np": 1, "asan": True}] +
         [{"tag": f"h_c07p-conv-np{n}", "harness": "h_c07p", "np": n, "args": ["conv"], "asan": n in (1, 2)}
@@ -158,12 +159,16 @@ def c04_configs(tier, seed):
             if ragged:
                 c["timeout"] = 40
             cfgs.append(c)
+    # the exchanges of C03 (forward, reverse, sparse rows with values; three- and two-step packages against the
+    # specification) on multi-node layouts: an exchange that meets the specification is equivalent to the standard one
+    for n, ppn in nps(tier, [(4, 2), (6, 3)], [(4, 2), (6, 2), (6, 3), (8, 2), (8, 4), (12, 4), (16, 4)]):
+        cfgs.append({"tag": f"h_c03-np{n}-ppn{ppn}", "harness": "h_c03", "np": n, "env": {"PPN": ppn}})
     return cfgs
 
 
 PROPS["C04"] = dict(
     module="RaptorModel.Props.C04",
-    harnesses=["h_c04"],
+    harnesses=["h_c04", "h_c03"],
     configs=c04_configs,
     rule=("(np, PPN, ordering) grid incl. single node, PPN=1, all three orderings; per configuration random layouts/off-process sets; the four "
           "sub-packages of real TAPComm objects (3-step, 2-step, derived by column filtering) are dumped and the Lean certificate (consistency + "
@@ -178,7 +183,7 @@ PROPS["C04"] = dict(
 def c05_configs(tier, seed):
     cfgs = []
     for n, ppn in nps(tier, [(2, 2), (3, 3), (4, 2)], [(2, 1), (2, 2), (3, 3), (4, 2), (4, 4), (6, 3), (8, 4), (16, 4)]):
-        cfgs.append({"tag": f"h_c05-np{n}-ppn{ppn}", "harness": "h_c05", "np": n, "env": {"PPN": ppn, "VERIF_WATCHDOG": 60}, "timeout": 900 if tier == "thorough" else 280})
+        cfgs.append({"tag": f"h_c05-np{n}-ppn{ppn}", "harness": "h_c05", "np": n, "env": {"PPN": ppn, "VERIF_WATCHDOG": 60, "OMPI_MCA_btl_vader_eager_limit": 96, "OMPI_MCA_btl_vader_max_send_size": 256}, "timeout": 900 if tier == "thorough" else 280})
     return cfgs
 
 
